@@ -96,7 +96,7 @@ func (eng *Engine) report(prop, tier string, pc *PropConfig, obls []*Obligation,
 			Model: fmt.Sprintf("only %d obligations generated, expected at least %d", counted, pc.MinObligations)}
 		violations = append(violations, o)
 	}
-	os.MkdirAll(filepath.Join(verifRoot, "replays"), 0o755)
+	os.MkdirAll(replaysDir(), 0o755)
 	for _, o := range violations {
 		path := eng.writeReplay(prop, o)
 		suffix := " no-failing-input-found"
@@ -132,7 +132,7 @@ func (eng *Engine) writeReplay(prop string, o *Obligation) string {
 	if len(safe) > 120 {
 		safe = safe[:120]
 	}
-	path := filepath.Join(verifRoot, "replays", prop+"-"+safe+".json")
+	path := filepath.Join(replaysDir(), prop+"-"+safe+".json")
 	rep := map[string]any{
 		"property":   prop,
 		"obligation": o.Name,
@@ -150,6 +150,13 @@ func (eng *Engine) writeReplay(prop string, o *Obligation) string {
 	data, _ := json.MarshalIndent(rep, "", " ")
 	os.WriteFile(path, data, 0o644)
 	return path
+}
+
+func replaysDir() string {
+	if d := os.Getenv("VERIF_REPLAYS"); d != "" {
+		return d
+	}
+	return filepath.Join(verifRoot, "replays")
 }
 
 func truncate(s string, n int) string {
@@ -189,6 +196,26 @@ func (eng *Engine) writeEvidence(prop, tier string, pc *PropConfig, obls []*Obli
 	}
 	for n, t := range eng.usedAxioms {
 		trusted = append(trusted, "axiom "+n+": "+t)
+	}
+	// contracts of this repository's functions that were used at call sites here
+	// but are verified by another property's check (assumed in this one)
+	var elsewhere []string
+	nonil := []string{}
+	for k, c := range eng.cs.Funcs {
+		if c.Kind == "func" && c.Bound && !c.Trusted && !hasProp(c.Props, prop) {
+			elsewhere = append(elsewhere, fmt.Sprintf("%s (verified under %s)", shortenPaths(strings.Replace(k, "::", ".", 1)), strings.Join(c.Props, ",")))
+		}
+		if c.Kind == "func" && c.NoNil && hasProp(c.Props, prop) {
+			nonil = append(nonil, shortenPaths(strings.Replace(k, "::", ".", 1)))
+		}
+	}
+	sort.Strings(elsewhere)
+	sort.Strings(nonil)
+	for _, e := range elsewhere {
+		trusted = append(trusted, "contract assumed here, checked elsewhere: "+e)
+	}
+	for _, e := range nonil {
+		trusted = append(trusted, "nil-dereference freedom assumed (contract flag nonil) in "+e)
 	}
 	sort.Strings(trusted)
 	var fnNames []string
